@@ -69,7 +69,7 @@ def write_rc(path, filevals, all_sections):
 class Seam(Part):
     name = 'seam'
     chunk = 64
-    timeout = 30.0
+    timeout = 120.0
 
     def __init__(self, tier='quick'):
         self.tier = tier
